@@ -621,6 +621,8 @@ func checkMatchAllFallback(c *Check, fn *ssa.Function, kAll int64) {
 	last := vElem(leaves, vBin(token.SUB, vLen(leaves), vConstInt(1)))
 	noLeaf := union(
 		edgesWhere(fn, cCmp(token.GTR, vLen(leaves), vConstInt(0)), false),
+		// the node's own predicate, whose definition is verified: false ⇒ no leaf, or the last one is not match-all
+		p.lemmaEdges(fn, recv, "hasMatchAllLeaf", false),
 	)
 	notAll := edgesWhere(fn, cCmp(token.EQL, vCall("(route.Leaf).getMatchStyle", last), vConstInt(kAll)), false)
 	isMA := func(v ssa.Value) bool {
